@@ -44,8 +44,11 @@ def aux_framer(name, tag, guard=True, frames=2):
     f0 = FrameSpec(tag + "0", None, [("h_" + name, ">=", 1)] if guard else None,
                    [("go", tag + "1", [("y_" + name, ">=", 1)])] if frames > 1 else [("done",)])
     fs = [f0]
-    if frames > 1:
+    if frames == 2:
         fs.append(FrameSpec(tag + "1", None, None, [("done",)]))
+    elif frames >= 3:   # done in a non-final frame, then a further transition (z_<name> >= 1)
+        fs.append(FrameSpec(tag + "1", None, None, [("done",), ("go", tag + "2", [("z_" + name, ">=", 1)])]))
+        fs.append(FrameSpec(tag + "2", None, None, []))
     return FramerSpec(name, "aux", tag + "0", fs)
 
 
@@ -87,7 +90,7 @@ def family(sym, n, ngo=1, auxes=(), guards=True, done_need=False, aux_frames=2, 
             name = "a%d" % (k - 1)
         else:
             framers.append(aux_framer(name, "pqrs"[k], frames=aux_frames))
-            shares += ["h_" + name, "y_" + name]
+            shares += ["h_" + name, "y_" + name] + (["z_" + name] if aux_frames >= 3 else [])
         if kind == "plain":
             frames[host].items.append(("aux", name))
         else:
